@@ -187,7 +187,7 @@ func run(rc *runConfig) int {
 		}
 		if fn == nil {
 			fmt.Printf("UNDECIDED property=%s contract target %q does not exist in the package\n", rc.prop, n)
-			undecided++
+			obls = append(obls, contractObligation(n, fs, rc.prop, fmt.Sprintf("contract target %q does not exist in the package (renamed or removed): nothing the contract states about it can be established", n)))
 			continue
 		}
 		if fs.Trusted {
@@ -196,7 +196,7 @@ func run(rc *runConfig) int {
 		x, err := verifyWithInference(prog, fn, fs, rc)
 		if err != nil {
 			fmt.Printf("UNDECIDED property=%s %v\n", rc.prop, err)
-			undecided++
+			obls = append(obls, contractObligation(n, fs, rc.prop, err.Error()))
 			// what was generated before the contract error is still valid and is still reported
 			execs = append(execs, x)
 			for _, o := range x.obls {
@@ -218,7 +218,7 @@ func run(rc *runConfig) int {
 	for _, u := range prog.roleUnseen {
 		if rc.funcOnly == "" {
 			fmt.Printf("UNDECIDED property=%s %s\n", rc.prop, u)
-			undecided++
+			obls = append(obls, contractObligation("roleimpl", nil, rc.prop, u))
 		}
 	}
 	smtDir := filepath.Join(rc.outDir, "smt", rc.prop)
@@ -228,6 +228,25 @@ func run(rc *runConfig) int {
 	solveAll(covers, filepath.Join(smtDir, "covers"), rc.timeout, rc.seed, false, rc.workers)
 	rep := &Report{rc: rc, prog: prog, obls: obls, covers: covers, execs: execs, names: names, loadS: loadS, start: start, undecided: undecided}
 	return rep.finish()
+}
+
+// contractObligation: the contract of a function under verification can no longer be established on
+// this tree (it names something that is gone, the function is gone, or its body left the subset the
+// engine handles). On the unchanged tree every contract binds and every body is in the subset, so this
+// is an obligation that held and now fails; it is reported like any other undischarged obligation,
+// without a failing input.
+func contractObligation(fn string, fs *FuncSpec, prop, why string) *Obligation {
+	props := []string{prop}
+	if fs != nil && len(fs.Props) > 0 && prop == "" {
+		props = fs.Props
+	}
+	o := &Obligation{Name: fn + "#contract#0", Func: fn, Kind: "contract", Props: props, Goal: "false",
+		Desc: "the contract of " + fn + " binds to the code and its body can be verified against it"}
+	if fs != nil {
+		o.Pos = fmt.Sprintf("%s:%d", shortFile(fs.File), fs.Line)
+	}
+	o.Res = &SolveResult{Status: "unknown", Solver: "engine", Output: why}
+	return o
 }
 
 func clauseHasProp(fs *FuncSpec, p string) bool {
